@@ -183,6 +183,7 @@ func runC39(c *Ctx) {
 		}
 	}
 	runC39G3(c)
+	runC39P3(c)
 	// shared pairing rules
 	runC04Pairing(c)
 }
@@ -262,5 +263,32 @@ func CmpGuardGT0(suffix string) CondM {
 			return true, true
 		}
 		return false, false
+	}
+}
+
+// runC39P3: references to file-cache values. findOrCreateTable / findOrCreateBlob return a
+// reference that pins the open reader (and, through it, the file: an obsolete file is deleted
+// only once its reader is closed; Close reports leaked references). Every call site releases the
+// reference on every path on which the call succeeded, or hands it over (stored in a field, or
+// owned by the point iterator whose close hook releases it).
+func runC39P3(c *Ctx) {
+	spec := PairSpec{Rule: "C39.P3", What: "file-cache reference released or handed over", Release: []string{"Unref"},
+		ErrGated: true, Derived: []string{"Value"},
+		Consumers:  []string{"p.(*fileCacheHandle).newPointIter", "p.(*fileCacheHandle).addReference"},
+		OwnedWhere: []CondM{NonZeroGuard("iters.point")},
+	}
+	n := acquireSites(c, CallTo("p.(*fileCacheHandle).findOrCreateTable", "p.(*fileCacheHandle).findOrCreateBlob"), modPath, func(fn *ssa.Function, call *ssa.Call) {
+		var v ssa.Value = call
+		if call.Referrers() != nil {
+			for _, r := range *call.Referrers() {
+				if ex, ok := r.(*ssa.Extract); ok && ex.Index == 0 {
+					v = ex
+				}
+			}
+		}
+		c.Pairing(spec, fn, call, v)
+	})
+	if n < 4 {
+		c.Unresolved("C39.P3", "fewer than 4 findOrCreateTable/findOrCreateBlob call sites found")
 	}
 }
